@@ -444,6 +444,10 @@ func c09Pipelined(e *c09Env) {
 		}
 		return
 	}
+	if got := s.rs.R.Count() - base; got < len(burst) {
+		u.Violation("pipelined-refusals-missing", fmt.Sprintf("%d requests pipelined to the read-only server, the session ended after %d responses", len(burst), got), nil)
+		return
+	}
 	for i, body := range s.rs.R.All()[base : base+len(burst)] {
 		p, err := vfParse(body, true)
 		req := burst[i]
